@@ -6,6 +6,8 @@ namespace Driver.C11
 structure St where
   gran : Nat := 64
   spans : List SpanRec := []
+  lin : List LinEv := []        -- reversed
+  po : List LinEv := []         -- reversed
 
 def step (st : St) (line : String) : St × String :=
   match words line with
@@ -15,18 +17,42 @@ def step (st : St) (line : String) : St × String :=
     | some tid, some addr, some size, some req, some t0, some t1 =>
       ({ st with spans := { tid, addr, size, requested := req, t0, t1, contentOk := ok == "1" } :: st.spans }, "")
     | _, _, _, _, _, _ => (st, "bad-op")
-  | "code" :: _tid :: _runs :: a :: c :: [] =>
+  | "code" :: _tid :: _runs :: a :: c :: _ =>
     (st, if a == "asm_diff=0" && c == "cc_diff=0" then "" else "BAD per-thread code differs from single-threaded code: " ++ line)
+  | ["lin", tid, seq, sig] =>
+    match tid.toNat?, seq.toNat? with
+    | some tid, some seq => ({ st with lin := { tid, seq, sig } :: st.lin }, "")
+    | _, _ => (st, "bad-op")
+  | ["po", tid, seq, sig] =>
+    match tid.toNat?, seq.toNat? with
+    | some tid, some seq => ({ st with po := { tid, seq, sig } :: st.po }, "")
+    | _, _ => (st, "bad-op")
   | "end" :: rest =>
     let n := st.spans.length
     let bad := st.spans.find? (fun s => !spanOk st.gran s)
+    let lin := st.lin.reverse
+    let po := st.po.reverse
+    let threads := ((lin ++ po).map (·.tid + 1)).foldl max 0
+    let order : Option String :=
+      match firstDisorder threads lin po with
+      | some t =>
+        let a := ofThread t lin
+        let b := ofThread t po
+        let k := ((a.zip b).takeWhile fun (x, y) => x == y).length
+        let show1 := fun (l : List LinEv) => match l[k]? with | some e => s!"#{e.seq} {e.sig}" | none => "<nothing>"
+        some s!"BAD program order: thread {t}: position {k} of its critical sections in lock order is {show1 a}, the thread itself logged {show1 b} ({a.length} events, {b.length} logged)"
+      | none => none
     let verdict :=
+      match order with
+      | some e => e
+      | none =>
       match bad, firstConflict st.spans with
       | some s, _ => s!"BAD span misaligned/too small/corrupted: tid={s.tid} addr={toHex s.addr} size={s.size} req={s.requested} ok={s.contentOk}"
       | none, some (a, b) => s!"BAD overlapping live spans: tid={a.tid} addr={toHex a.addr} size={a.size} [{a.t0},{a.t1}] and tid={b.tid} addr={toHex b.addr} size={b.size} [{b.t0},{b.t1}]"
       | none, none =>
-        if rest.contains "final_allocations=0" then s!"good spans={n}" else "BAD allocations remain accounted after everything was released: " ++ " ".intercalate rest
-    ({ st with spans := [] }, verdict)
+        if !rest.contains "errors=0" then "BAD valid operations failed or answered wrongly (shared or private allocator, runtime add/release): " ++ " ".intercalate rest
+        else if rest.contains "final_allocations=0" then s!"good spans={n} lin={lin.length}" else "BAD allocations remain accounted after everything was released: " ++ " ".intercalate rest
+    ({ st with spans := [], lin := [], po := [] }, verdict)
   | _ => (st, "bad-op")
 
 def main : IO Unit := do
